@@ -253,14 +253,26 @@ func (st *ServerStream) readerAdd(
 	case ProtocolUDP:
 		// check whether UDP ports and IP are already assigned to another reader
 		for r := range st.readers {
+			// the other reader might be handling a further SETUP request,
+			// that writes its setuppedTransport and setuppedMedias.
+			// a reader never waits for the stream mutex while holding its propsMutex,
+			// since readerAdd() is called during the first SETUP only.
+			r.propsMutex.RLock()
+			inUse := false
 			if r.setuppedTransport.Protocol == ProtocolUDP &&
 				r.author.ip().Equal(ss.author.ip()) &&
 				r.author.zone() == ss.author.zone() {
 				for _, rt := range r.setuppedMedias {
 					if rt.udpRTPReadPort == clientPorts[0] {
-						return liberrors.ErrServerUDPPortsAlreadyInUse{Port: rt.udpRTPReadPort}
+						inUse = true
+						break
 					}
 				}
+			}
+			r.propsMutex.RUnlock()
+
+			if inUse {
+				return liberrors.ErrServerUDPPortsAlreadyInUse{Port: clientPorts[0]}
 			}
 		}
 
